@@ -196,6 +196,7 @@ def check(prop, tier, seed, only_sub=None, jobs=None):
         a["evaluations"] += r["evaluations"]
         a["excluded"] += r["excluded"]
         a["nontrivial"].update(r["nontrivial_hashes"])
+        a["extra_nt"] = a.get("extra_nt", 0) + r.get("extra_nontrivial", 0)
         for k, v in r["labels"].items():
             a["labels"][k] = a["labels"].get(k, 0) + v
         if len(a["samples"]) < 3:
@@ -217,18 +218,24 @@ def check(prop, tier, seed, only_sub=None, jobs=None):
             rp = write_replay(prop, name, x64_of[name], fl)
             violations.append((name, bucket, rp))
         if a["evaluations"] > 0 and not a["failures"]:
-            frac = len(a["nontrivial"]) / max(1, a["evaluations"])
+            frac = (len(a["nontrivial"]) + a.get("extra_nt", 0)) / max(1, a["evaluations"])
             # distinct non-trivial cases over evaluations; enumerations and machines are exempt
             if a["mode"] == "given" and frac < minfrac[name]:
                 harness_errors.append(f"{name}: non-trivial fraction {frac:.2f} < {minfrac[name]} (generator must be fixed)")
 
     wall = time.time() - t0
     evaluations = sum(a["evaluations"] for a in per_sub.values())
-    distinct_nt = sum(len(a["nontrivial"]) for a in per_sub.values())
+    distinct_nt = sum(len(a["nontrivial"]) + a.get("extra_nt", 0) for a in per_sub.values())
     samples = []
     for name, a in per_sub.items():
         for smp in a["samples"][:2]:
             samples.append(dict(subcheck=name, **smp))
+    if not samples:  # nothing passed: show the failing cases instead
+        for name, a in per_sub.items():
+            for bucket, fl in list(a["failures"].items())[:2]:
+                samples.append(dict(subcheck=name, case=fl["case"], failing_bucket=bucket))
+    if not samples:
+        samples.append({"note": "no case was executed (harness error)"})
     ev = {
         "property_id": prop,
         "tier": tier,
@@ -247,7 +254,7 @@ def check(prop, tier, seed, only_sub=None, jobs=None):
                     "mode": a["mode"],
                     "what": a["doc"],
                     "evaluations": a["evaluations"],
-                    "distinct_nontrivial": len(a["nontrivial"]),
+                    "distinct_nontrivial": len(a["nontrivial"]) + a.get("extra_nt", 0),
                     "excluded_by_known_findings": a["excluded"],
                     "exhaustive_over_its_finite_space": a["exhaustive"],
                     "labels": dict(sorted(a["labels"].items())),
@@ -269,8 +276,11 @@ def check(prop, tier, seed, only_sub=None, jobs=None):
         tmp = os.path.join(evdir, f".{prop}.json.tmp")
         with open(tmp, "w") as f:
             json.dump(ev, f, indent=1)
-        validate_evidence(ev)
         os.replace(tmp, os.path.join(evdir, f"{prop}.json"))
+        try:
+            validate_evidence(ev)
+        except Exception as e:  # noqa: BLE001
+            harness_errors.append(f"evidence file does not validate: {str(e)[:500]}")
 
     for line in known_lines:
         print(line)
@@ -284,7 +294,7 @@ def check(prop, tier, seed, only_sub=None, jobs=None):
     print(f"[{prop} {tier} seed={seed}] evaluations={evaluations} distinct_nontrivial={distinct_nt} "
           f"violations={len(seen)} known={len(known_lines)} harness_errors={len(harness_errors)} wall={wall:.0f}s")
     for name, a in per_sub.items():
-        print(f"   {name:34s} {a['mode']:8s} n={a['evaluations']:6d} nt={len(a['nontrivial']):6d} "
+        print(f"   {name:34s} {a['mode']:8s} n={a['evaluations']:6d} nt={len(a['nontrivial']) + a.get('extra_nt', 0):6d} "
               f"excl={a['excluded']:4d} t={a['wall_s']:.0f}s fails={sorted(a['failures'])}")
     if violations:
         return 1
